@@ -70,6 +70,9 @@ func v6Deadlines(n int, extra ...string) []string {
 	return append(out, extra...)
 }
 
+// v6ManyPeers: pool size surplus for calls that issue two requests concurrently.
+const v6ManyPeers = 24
+
 type v6Bounds struct {
 	thorough   bool
 	squares    int
@@ -102,7 +105,7 @@ func v6BsAlphabet(multi, thorough bool) []string {
 	}
 	var out []string
 	for _, k := range v6BsKinds {
-		out = append(out, k+"/honest/one", k+"/silent/sep")
+		out = append(out, k+"/honest/one", k+"/honest/rev", k+"/silent/sep")
 		if thorough {
 			out = append(out, k+"/honest/sep", k+"/silent/one")
 		}
@@ -134,7 +137,7 @@ func v6Phases(sqs []*v6Square, b v6Bounds) []v6Phase {
 						if len(seq) != maxLen {
 							continue // shorter sequences belong to the earlier phases
 						}
-						extra := []string{"d5m0s"}
+						extra := []string{"d5m0.5s"}
 						if b.thorough {
 							extra = append(extra, "c1500ms")
 						}
@@ -145,7 +148,16 @@ func v6Phases(sqs []*v6Square, b v6Bounds) []v6Phase {
 						for _, seq2 := range seq2s {
 							for _, d := range v6Deadlines(len(seq), extra...) {
 								for _, p := range pools {
-									if !yield(v6Case{Wiring: "shrex", Sq: s.Idx, Req: r, Seq: seq, Seq2: seq2, D: d, BL: p.bl, Extra: p.extra}) {
+									c := v6Case{Wiring: "shrex", Sq: s.Idx, Req: r, Seq: seq, Seq2: seq2, D: d, BL: p.bl, Extra: p.extra}
+									if len(keys) > 1 {
+										// two concurrent requests: enough peers that neither ever waits for, or shares, a peer
+										// (which request gets which peer is up to the scheduler and must not matter)
+										if p.extra == 0 {
+											continue
+										}
+										c.Extra = v6ManyPeers
+									}
+									if !yield(c) {
 										return
 									}
 								}
@@ -212,6 +224,9 @@ func v6Phases(sqs []*v6Square, b v6Bounds) []v6Phase {
 								for _, bs := range bsSeqs {
 									for _, d := range []string{"none", "d8500ms"} {
 										c := v6Case{Wiring: wiring, Sq: s.Idx, Req: r, Seq: seq, Seq2: seq2, Bs: bs, D: d, Extra: 1}
+										if len(keys) > 1 {
+											c.Extra = v6ManyPeers
+										}
 										if wiring == "bridge" {
 											c.Local = "miss"
 										}
@@ -364,15 +379,20 @@ func TestVerifC06(t *testing.T) {
 		for _, l := range last.Log {
 			fmt.Println("  " + l)
 		}
-		if n == 5 {
+		rep.Count(5, 2, 0, 0)
+		rep.AddSample(map[string]any{"case": doc.Replay, "observations": last.Log})
+		rep.SetExhaustive(false)
+		switch n {
+		case 5:
 			fmt.Printf("REPLAY-RESULT violation reproduced 5/5: %s: %s\n", last.Sig, last.What)
-			t.Fail()
-		} else if n == 0 {
+			rep.Violation(last.Sig, last.What, doc.Replay)
+		case 0:
 			fmt.Println("REPLAY-RESULT no violation")
-		} else {
+		default:
 			fmt.Printf("REPLAY-RESULT NONDETERMINISM: violation in %d of 5 runs\n", n)
-			t.Fail()
+			rep.Infra("replay is not deterministic")
 		}
+		rep.Finish()
 		return
 	}
 
